@@ -454,6 +454,28 @@ Lemma sys_accepts_reachable x sid c : xinv x -> sess_uid sm sid <> 0%N ->
      (sid, Ctrl 202 [(P_seq, x_sys_lastid x + 1)]) :: sys_push x (x_sys_lastid x + 1) (sess_uid sm sid)).
 Proof. intros [_ [_ [S [R _]]]] U. apply publish_sys_accepts; assumption. Qed.
 
+(* as an event of a history: the only other thing that can complete on the way is a delete already in flight *)
+Lemma xstep_pub_sys x f sid c :
+  xstep x (EPubSys f sid c) =
+    (fst (publish_sys sm (fst (del_finish x)) f sid c), snd (del_finish x) ++ snd (publish_sys sm (fst (del_finish x)) f sid c)).
+Proof.
+  unfold TopicLife.xstep. destruct (x_del x) eqn:D.
+  - destruct (del_finish x) as [x1 o1]. cbn [TopicLife.xcore fst snd]. destruct (publish_sys sm x1 f sid c). reflexivity.
+  - unfold del_finish. rewrite D. cbn [TopicLife.xcore fst snd app]. destruct (publish_sys sm x f sid c). reflexivity.
+Qed.
+Lemma xstep_pub_sys_accepts x sid c : xinv x -> sess_uid sm sid <> 0%N ->
+  let x1 := fst (del_finish x) in
+  xstep x (EPubSys NoFault sid c) =
+    (set_sys (x_sys_lastid x1 + 1) (x_sys_lastid x1 + 1) (x_sys_msgs x1 ++ [mkMsg (x_sys_lastid x1 + 1) (sess_uid sm sid) c 0]) x1,
+     snd (del_finish x) ++ (sid, Ctrl 202 [(P_seq, x_sys_lastid x1 + 1)]) :: sys_push x1 (x_sys_lastid x1 + 1) (sess_uid sm sid)).
+Proof.
+  intros X U. cbv zeta. rewrite xstep_pub_sys. rewrite (sys_accepts_reachable _ sid c (proj1 (xinv_del_finish x X)) U). reflexivity.
+Qed.
+
+(* a suspension as an event of a history *)
+Lemma xstep_suspend x f u b : x_del x = None -> xstep x (ESuspend f u b) = (after_crash f (suspend x f u b), []).
+Proof. intros D. unfold TopicLife.xstep. rewrite D. reflexivity. Qed.
+
 (* ---------- publishes to a peer-to-peer topic ---------- *)
 Definition p2p_addressable (p : ptopic) (sid : N) : bool :=
   negb (sess_uid sm sid =? 0)%N && p2p_party p (sess_uid sm sid).
